@@ -143,6 +143,8 @@ func TestC20(t *testing.T) {
 			return true
 		}
 		op := fmt.Sprintf("open %s %s %s %s %s", mode, encTok(vals[0]), encTok(vals[1]), encTok(vals[2]), encTok(vals[3]))
+		e.Emit("# next: "+op, "#")
+		e.FlushNow() // an open can take the whole process down (a panic in a goroutine of the real code): keep the case readable
 		obs := w.open(mode, vals)
 		e.Emit(op, obs)
 		e.Evals++
